@@ -2,8 +2,10 @@
 (as JSON-able terms -> Python callables and -> Coq terms)."""
 import math
 
-EXN = {'TypeError': 1, 'ValueError': 2, 'ZeroDivisionError': 3, 'IndexError': 4, 'OverflowError': 5}
-EXN_CLS = {1: TypeError, 2: ValueError, 3: ZeroDivisionError, 4: IndexError, 5: OverflowError, 9: RuntimeError}
+EXN = {'TypeError': 1, 'ValueError': 2, 'ZeroDivisionError': 3, 'IndexError': 4, 'OverflowError': 5,
+       'RecursionError': 6, 'MemoryError': 7, 'KeyError': 8, 'AssertionError': 10, 'AttributeError': 11, 'StopIteration': 12}
+EXN_CLS = {1: TypeError, 2: ValueError, 3: ZeroDivisionError, 4: IndexError, 5: OverflowError, 9: RuntimeError,
+           6: RecursionError, 7: MemoryError, 8: KeyError, 10: AssertionError, 11: AttributeError, 12: StopIteration}
 
 
 def exn_code(e):
